@@ -24,7 +24,7 @@ RULE = (
 )
 ASSUMPTIONS = [
     "reference evaluator rt/ref_jsonpath.py (validated against the RFC 9535 example tables by setup)",
-    "documents are plain dict/list/str/int/float/bool/None, depth <= 6 (<= 60 in the depth class), no NaN/inf, no aliasing",
+    "documents are plain dict/list/str/int/float/bool/None (other Mapping/Sequence types and shared containers in their own classes), depth <= 6 (<= 60 in the depth class, 99..300 in the scale class), lengths up to 65537 in the scale class, no NaN/inf",
     "descendant order: document-order pre-order; a breadth-first order that satisfies the RFC constraints is also accepted",
 ]
 SHARD_TIMEOUT = {"quick": 900, "thorough": 3600}
@@ -55,6 +55,8 @@ def plan(tier, seed):
     specs.append({"kind": "slices", "lens": lens[4:]})
     specs.append({"kind": "matrix"})
     specs.append({"kind": "names"})
+    specs.append({"kind": "scale", "part": "deep"})
+    specs.append({"kind": "scale", "part": "long"})
     n_rand = 12 if tier == "quick" else 44
     per = 1200 if tier == "quick" else 6000
     for i in range(n_rand):
@@ -107,6 +109,32 @@ def run(spec, ctx):
                 (["q", "$", [["child", [["slice", -5, None, None]]], ["child", [["name", "r"]]], ["desc", [["slice", None, 1, None]]]]], big, "$[-5:].r..[:1]"),
             ):
                 check_case(ctx, ast, doc, text, "large")
+    elif kind == "scale":
+        # sizes on either side of round thresholds: nesting 99..300, arrays and objects around 2^8, 2^10, 2^14, 2^16
+        if spec["part"] == "deep":
+            for depth in (99, 100, 101, 102, 128, 140, 257, 300):
+                for shape in ("objects", "arrays", "mixed"):
+                    v = {"n": depth, "l": [0, depth]}
+                    for i in range(depth):
+                        v = {"n": i, "c": v} if shape == "objects" or (shape == "mixed" and i % 2) else [v, i]
+                    for ast, text in (
+                        (["q", "$", [["desc", [["name", "n"]]]]], "$..n"), (["q", "$", [["desc", [["index", 1]]]]], "$..[1]"), (["q", "$", [["desc", [["wild"]]]]], "$..*"),
+                        (["q", "$", [["desc", [["name", "l"]]], ["child", [["slice", 1, None, None]]]]], "$..l[1:]"), (["q", "$", [["desc", [["slice", None, None, -1]]]]], "$..[::-1]"),
+                    ):
+                        check_case(ctx, ast, v, text, "scale:deep")
+                    ctx.cell("scale", "depth=%d %s" % (depth, shape))
+        else:
+            for n in (255, 256, 257, 1023, 1025, 4097, 16383, 16384, 16385, 20000, 65535, 65537):
+                arr = [[i] for i in range(n)]
+                obj = {"k%d" % i: [i] for i in range(n)}
+                for ast, doc, text in (
+                    (["q", "$", [["child", [["wild"]]]]], arr, "$[*]"), (["q", "$", [["child", [["slice", -3, None, None]]], ["child", [["index", 0]]]]], arr, "$[-3:][0]"),
+                    (["q", "$", [["child", [["index", n - 1], ["index", -n], ["index", n], ["index", -n - 1]]]]], arr, "$[%d,%d,%d,%d]" % (n - 1, -n, n, -n - 1)),
+                    (["q", "$", [["child", [["slice", None, None, -(n // 3)]]]]], arr, "$[::%d]" % -(n // 3)), (["q", "$", [["desc", [["index", 0]]]]], {"a": arr}, "$..[0]"),
+                    (["q", "$", [["child", [["wild"]]]]], obj, "$.*"), (["q", "$", [["desc", [["wild"]]]]], obj, "$..*"), (["q", "$", [["child", [["name", "k%d" % (n - 1)], ["name", "k%d" % n]]]]], obj, "$['k%d','k%d']" % (n - 1, n)),
+                ):
+                    check_case(ctx, ast, doc, text, "scale:long")
+                ctx.cell("scale", "length=%d" % n)
     elif kind == "matrix":
         rr = Renderer(r)
         for (vk, v), (sk, sel) in itertools.product(VALUE_KINDS.items(), SEL_KINDS.items()):
